@@ -640,7 +640,7 @@ package larking
 //@   assert atcall `sh.HandleRPC(ctx, &stats.End{` #1 [websocket-end-carries-the-handlers-error C18] ptr(pay(arg1), "stats.End").Error == herr
 //@   assert atcall `sh.HandleRPC(ctx, &stats.End{` #2 [end-carries-the-handlers-error C18] ptr(pay(arg1), "stats.End").Error == herr#2
 //@   assert atcall `w.Header().Set("Content-Encoding"` #1 [announced-encoding-is-negotiated-and-applied C04] arg2 == acceptEncoding && cz#2 != nil
-//@   assert atcall `w.Header().Set("Content-Encoding"` #2 [identity-only-without-a-pending-compressor C04 C05] resp == w
+//@   assert atcall `w.Header().Set("Content-Encoding"` #2 [identity-only-without-a-pending-compressor C04 C05] zc == nil
 //@   witness verifWitnessGzipError for identity-only-without-a-pending-compressor
 //@   witness verifWitnessPathAuthoritative
 //@   witness verifWitnessStatsEnd for end-after-begin
